@@ -47,6 +47,18 @@ EXTRA_SPECIMENS = [
     (IN, "KEY", "NOKEY|FLAG2 3 8"),
     (IN, "KEY", "HOST|SIG3 TLS RSASHA256 AQID"),
     (IN, "NINFO", '"one" "two\\000\\255"'),
+    # lists with more than two items
+    (IN, "HIP", "2 200100107b1a74df365639cc39f1d578 AwEAAbdxyhNuSutc5EMzxTs9LBPCIkOFH8cIvM4p9+LrV4e19WzK00+CI6zBCQTdtWsuxKbWIy87UOoJTwkUs7lB "
+                "rvs1.example.com. rvs2.example.com. rvs3.example.com. rvs4.example."),
+    (IN, "HTTPS", '1 . alpn="h2,h3" port=8443 ipv4hint=1.2.3.4,5.6.7.8 ech=AQID ipv6hint=::1,2001:db8::1 key65000="x\\000y"'),
+    (IN, "SVCB", "16 foo.example. mandatory=alpn,port alpn=h2 no-default-alpn port=53 key7=x"),
+    (IN, "APL", "1:10.0.0.0/8 !1:10.1.0.0/16 2:2001:db8::/32 !2:2001:db8:1::/48 1:192.168.0.0/16"),
+    (IN, "TXT", '"1" "2" "3" "4" "5" "6"'),
+    (IN, "NSEC", "x.example. A TYPE256 TYPE512 TYPE768 TYPE1024 TYPE65535"),
+    (IN, "AMTRELAY", "10 1 3 relay.example."),
+    (IN, "AMTRELAY", "0 0 0 ."),
+    (IN, "IPSECKEY", "10 3 2 gw.example. AQNRU3mG7TVTO2BkR47usntb102uFJtugbo6BSGvgqt4AQ=="),
+    (IN, "EUI64", "00-01-02-ab-cd-ef-fe-ff"),
     (IN, "TKEY", "hmac-sha256. 1609459200 1609545600 3 0 AQIDBA== AQID"),
     (IN, "TKEY", "gss-tsig. 0 4294967295 65535 65535 AQIDBAUGBwg="),
     (IN, "TSIG", "hmac-sha256. 1609459200 300 4 AQIDBA== 12345 NOERROR 0"),
